@@ -2271,8 +2271,12 @@ func genC11(g *G, sc *Scenario, tier string, seed uint64) {
 			}
 			return m
 		case 3:
-			var l []any
-			for i := g.Range(1, 3); i > 0; i-- {
+			l := []any{}
+			n := g.Range(1, 3)
+			if g.P(0.08) {
+				n = 0 // a union of nothing (accepted or refused: never fatal)
+			}
+			for i := n; i > 0; i-- {
 				l = append(l, map[string]any{"Name": g.Pick(data)})
 			}
 			return map[string]any{"Type": "UnionDatasetSource", "DatasetSources": l}
